@@ -236,6 +236,10 @@ func invertSegments(ss []Segment, n int) []Segment {
 	rr := make([]Segment, 0, len(ss)+1)
 	start := 0
 	for _, s := range ss {
+		if s[0] == s[1] {
+			// A zero-length segment covers nothing: it does not split a gap.
+			continue
+		}
 		if start != s[0] {
 			rr = append(rr, Segment{start, s[0]})
 		}
@@ -260,7 +264,7 @@ func InvertLinear(r Region, n int) []Region {
 func InvertCircular(r Region, n int) []Region {
 	ss := Minimize(r)
 	rr := InvertLinear(r, n)
-	if ss[0][0] == 0 || ss[len(ss)-1][1] == n {
+	if len(rr) < 2 || ss[0][0] == 0 || ss[len(ss)-1][1] == n {
 		return rr
 	}
 	rr[0] = Regions{rr[len(rr)-1], rr[0]}
